@@ -407,6 +407,8 @@ pub fn run<P: Property>(opts: &RunOpts) -> i32 {
     panic::install_hook();
     let t0 = Instant::now();
     let root = &opts.root;
+    // board edge of the scene generators: 6 in the quick tier, 8 in the thorough tier (VERIF_BOARD overrides, for calibration)
+    crate::gen::set_max_g(std::env::var("VERIF_BOARD").ok().and_then(|v| v.parse().ok()).unwrap_or(opts.tier.pick(6, 8)));
     let known = load_known(root);
     let mut total = ShardStats::default();
     // (case json, failures, origin)
